@@ -278,6 +278,8 @@ type world struct {
 	err                error
 	panicVal           any
 	retClk             int
+	pipeClosedClk      int // the reducer saw its pipe closed (all mappers had ended by then)
+	firstMapperPanicClk int
 	cancelledAtReturn  bool // some cancel had been invoked when the call returned
 	ctxEndedAtReturn   bool // the context had ended when the call returned
 	returnedBeforeNest bool // nested scenario: this (outer) call had returned before the inner one did
@@ -359,6 +361,9 @@ func (w *world) raise(who string, kind int) {
 
 func (w *world) notePanic(who string, v any) {
 	w.userPanics = append(w.userPanics, v)
+	if who == "mapper" && w.firstMapperPanicClk == 0 {
+		w.firstMapperPanicClk = w.tick()
+	}
 	w.r.Probe("panic-" + who)
 	if len(w.userPanics) >= 2 {
 		w.r.Probe("multi-panic")
@@ -758,6 +763,7 @@ func (w *world) reducer(pipe <-chan int, writer mr.Writer[int], cancel func(erro
 		}
 		v, ok := simrt.Recv2("reducer", pipe)
 		if !ok {
+			w.pipeClosedClk = w.tick()
 			break
 		}
 		w.reduced = append(w.reduced, v)
@@ -1132,9 +1138,29 @@ func (w *world) checkOutcome() {
 		return
 	}
 	if len(w.userPanics) > 0 && p.variant != 5 && p.variant != 3 {
-		// a user panic happened; the call may still have returned normally only if the
-		// panic came after the result was decided - not checkable soundly; accept
+		// a user panic happened; the call may still have returned normally if the panic came
+		// after the result was decided - in general not checkable soundly; accepted, except below
 		r.Probe("panic-not-reraised")
+	}
+	// A mapper panicked, nothing was cancelled and the context has not ended: the only outcome the
+	// statement leaves is the re-raised panic - provided the library had the panic in hand before
+	// anything could release the caller.  That is certain when the caller is released by something
+	// that follows the end of ALL mappers: ForEach returns once every mapper has ended; a reducer
+	// that writes (or returns) only after it saw its pipe closed does so after every mapper,
+	// including the panicking one, has ended.
+	if w.firstMapperPanicClk > 0 && !w.cancelledAtReturn && !w.ctxEndedAtReturn && w.firstMapperPanicClk < w.retClk {
+		certain := false
+		switch p.variant {
+		case 3:
+			certain = true
+		case 0, 1, 2:
+			certain = w.pipeClosedClk > w.firstMapperPanicClk && (w.redWrites == 0 || w.redWriteStartClk > w.pipeClosedClk)
+		}
+		if certain {
+			r.Fail("panic-swallowed/mapper-panic-before-the-pipe-closed", "call %s returned (%d, %v) normally although a mapper had panicked before the pipe was closed, nothing was cancelled and the context has not ended (user panics %d, reducer writes %d)",
+				w.tag, val, err, len(w.userPanics), w.redWrites)
+			return
+		}
 	}
 	if p.variant == 4 && len(w.cancelErrs) >= 2 {
 		r.Probe("finish-several-errors")
